@@ -4,11 +4,11 @@
    the object spans nothing (the cases the property says must be no-ops).
    The Document queries are those of Model/C02_DocQueries.v.
 
-   [n] is event.arg as the text-object function sees it: the wrapper
-   _apply_operator_to_text_object has already overwritten event._arg with
-   operator count * motion count, so event._arg is never empty there (the
-   bracket-matching branch of the % object is unreachable under an operator;
-   gg always takes the go-to-line branch).
+   [n] is event.arg as the text-object function sees it and [hc] tells whether
+   event._arg is set there: the wrapper _apply_operator_to_text_object
+   overwrites event._arg with operator count * motion count only when one of
+   the two counts was typed (fix f3ffc71), so without a count % matches
+   brackets and gg goes to the first line.
 
    H, M, L, gm are modelled for window.render_info = None only (no rendered
    window in the harness).  n and N (search) are not modelled. *)
@@ -46,7 +46,7 @@ Inductive tok :=
 | T_percent | T_bar | T_gg | T_g_ | T_ge (WORD : bool) | T_gm | T_G
 | T_explicit (o : tobj).
 
-Definition text_object (k : tok) (d : doc) (n : Z) : tores :=
+Definition text_object (k : tok) (d : doc) (n : Z) (hc : bool) : tores :=
   match k with
   | T_b W => excl0 (orz (find_start_of_previous_word d n W))
   | T_dollar => excl0 (get_end_of_line_position d)
@@ -75,7 +75,7 @@ Definition text_object (k : tok) (d : doc) (n : Z) : tores :=
       match s, e with
       | Some s', Some e' =>
           let off := if inner then 0 else 1 in
-          TO (mkto (s' + 1 - off) (e' + off) EXCL) (e' + off <=? s' + 1 - off)
+          TO (mkto (s' + 1 - off) (e' + off) EXCL) (e' + off =? s' + 1 - off)
       | _, _ => TO (mk1 0) true
       end
   | T_lbrace => match start_of_paragraph d n true with Some v => excl0 v | None => TOErr end
@@ -107,12 +107,18 @@ Definition text_object (k : tok) (d : doc) (n : Z) : tores :=
   | T_H | T_M => TO (mkto (- len (text_before_cursor d)) 0 LINEW) false
   | T_L => TO (mkto (len (text_after_cursor d)) 0 LINEW) false
   | T_percent =>
-      if (0 <? n) && (n <=? 100) then
-        TO (mkto (translate_row_col_to_index d ((n * line_count d - 1) / 100) 0 - dcur d) 0 LINEW)
-           false
-      else TO (mk1 0) true
+      if hc then
+        if (0 <? n) && (n <=? 100) then
+          TO (mkto (translate_row_col_to_index d ((n * line_count d - 1) / 100) 0 - dcur d) 0 LINEW)
+             false
+        else TO (mk1 0) true
+      else
+        let m := find_matching_bracket_position d None None in
+        if m =? 0 then TO (mk1 0) true else TO (mkto m 0 INCL) false
   | T_bar => excl0 (get_column_cursor_position d (n - 1))
-  | T_gg => TO (mkto (translate_row_col_to_index d (n - 1) 0 - dcur d) 0 LINEW) false
+  | T_gg =>
+      if hc then TO (mkto (translate_row_col_to_index d (n - 1) 0 - dcur d) 0 LINEW) false
+      else TO (mkto (get_start_of_document_position d) 0 LINEW) false
   | T_g_ =>
       TO (mkto (last_non_blank_of_current_line_position d) 0 INCL)
          (len (rstrip_by is_space (current_line d)) =? 0)
@@ -196,10 +202,10 @@ Definition enc_vres (r : vres) (o : option tobj) (failed : bool) : sx :=
      sx_opt enc_tobj o; sx_bool failed].
 
 (* one Vi command <operator><text object> on (text, cursor) *)
-Definition run_cmd (text : str) (cur : Z) (k : opk) (arg : Z) (keys : list Z) (m : tok) (fix_ : bool)
-  : sx :=
+Definition run_cmd (text : str) (cur : Z) (k : opk) (arg : Z) (hc : bool) (keys : list Z) (m : tok)
+  (fix_ : bool) : sx :=
   let st0 := mkvst (mkbuf text cur) None None false in
-  match text_object m (mkdoc text cur) arg with
+  match text_object m (mkdoc text cur) arg hc with
   | TOErr => enc_vres (1, st0) None false
   | TO o failed =>
       let '(status, st) := run_op k st0 o (mkev arg keys) in
@@ -208,13 +214,14 @@ Definition run_cmd (text : str) (cur : Z) (k : opk) (arg : Z) (keys : list Z) (m
       enc_vres (status, st') (Some o) failed
   end.
 
-(* case = (text cursor (opkind p1 p2) arg (key data ...) (tok p1 p2 p3) fix) *)
+(* case = (text cursor (opkind p1 p2) arg count-typed (key data ...) (tok p1 p2 p3) fix);
+   key data = the operator's key sequence *)
 Definition run_C08 (c : sx) : sx :=
   match c with
-  | L [t; A cur; op; A arg; ks; m; A fx] =>
+  | L [t; A cur; op; A arg; A hc; ks; m; A fx] =>
       match as_str t, dec_opk op, as_str ks, dec_tok m with
       | Some t', Some k, Some keys, Some m' =>
-          if (0 <=? cur) && (cur <=? len t') then run_cmd t' cur k arg keys m' (fx =? 1)
+          if (0 <=? cur) && (cur <=? len t') then run_cmd t' cur k arg (hc =? 1) keys m' (fx =? 1)
           else bad_case
       | _, _, _, _ => bad_case
       end
